@@ -47,6 +47,9 @@ func main() {
 	debug.SetGCPercent(gcp)
 	debug.SetMemoryLimit(4 << 30)
 	run := evid.New("C04", "exploration")
+	// the watchdog is a hang detector only; on a heavily shared machine (load average > 100 was seen) a
+	// healthy job of a few milliseconds of CPU was once starved for 30 s, so the limit is 4 x the default
+	run.HangLimit = 120 * time.Second
 	if pf := os.Getenv("C04_PROF"); pf != "" {
 		f, _ := os.Create(pf)
 		pprof.StartCPUProfile(f)
